@@ -367,7 +367,7 @@ fn c19_blank_run_sym() {
     kani::cover!(k == 1);
 }
 
-//@ unit c19_blank_format q23=1 prop=C19,C04,C03 unwind=258 mem=6 timeout=1200 stubs=crate::util::try_format=>crate::verif_support::stub_try_format bound="Formatter::format of a Blank(n) field, every n: u8, writes exactly n blanks"
+//@ unit c19_blank_format q23=1 prop=C19,C04,C03 qprops=C19,C03,C02 unwind=258 mem=6 timeout=1200 stubs=crate::util::try_format=>crate::verif_support::stub_try_format bound="Formatter::format of a Blank(n) field, every n: u8, writes exactly n blanks"
 fn c19_blank_format() {
     let n: u8 = kani::any();
     let mut fields = StackVec::new();
